@@ -167,8 +167,9 @@ def gen_struct(rng, idx, allow_nested=True):
     svis = rng.choice(['pub ', '', 'pub '])
     sattr = rng.choice(['', '', '#[difference(setters)]\n', '#[difference(expose)]\n', f'#[difference(expose = "{name}Diff")]\n'])
     if 'expose' in sattr: feats.append('expose')
+    exposed_use = ''       # (that the exposed type is nameable under the documented name is NOT part of C17: compiles + round trip + frame only)
     src = (nested_src + rng.choice(DOCS) + rng.choice(FOREIGN) + "#[derive(Debug, Clone, PartialEq, Difference)]\n" + sattr
-           + f"{svis}struct {name}{gen}{where}\n{{\n" + '\n'.join(f for _, f in fields) + "\n}\n"
+           + f"{svis}struct {name}{gen}{where}\n{{\n" + '\n'.join(f for _, f in fields) + "\n}\n" + exposed_use
            + f"impl{impl_gen} Mk for {name}{'<' + impl_args + '>' if impl_args else ''}\nwhere {mk_bounds}{', ' if mk_bounds and wl else ''}{', '.join(wl)}\n{{\n    fn mk(s: u64) -> Self {{ {name} {{ " + ', '.join(mks) + " } }\n}\n"
            + f"pub fn test() -> Result<(), String> {{\n    for seed in 0..8u64 {{\n        let a: {inst} = Mk::mk(seed);\n        let b: {inst} = Mk::mk(seed * 7 + 1 + (seed % 3));\n"
            + "        let d = a.diff(&b);\n        let check = |r: &" + inst + "| -> Result<(), String> {\n" + '\n'.join(checks) + "\n            Ok(())\n        };\n"
@@ -197,8 +198,10 @@ def gen_enum(rng, idx):
         else: e = f"{name}::{vn}"
         arms.append(f"            {k} => {e},")
     inst = f"{name}<i64>" if tp else name
-    src = (rng.choice(DOCS) + "#[derive(Debug, Clone, PartialEq, Difference)]\n" + f"pub enum {name}{gen} {{\n" + ''.join(f"    {rng.choice(DOCS).strip()}\n    {v},\n" if rng.random() < 0.2 else f"    {v},\n" for v in variants) + "}\n"
-           + f"impl{'<T: Mk>' if tp else ''} Mk for {name}{gen} {{\n    fn mk(s: u64) -> Self {{\n        match s % {len(variants)} {{\n" + '\n'.join(arms[:-1]) + ('\n' if len(arms) > 1 else '')
+    eattr = rng.choice(['', '', '#[difference(expose)]\n', f'#[difference(expose = "{name}Diff")]\n'])
+    euse = ''
+    src = (rng.choice(DOCS) + "#[derive(Debug, Clone, PartialEq, Difference)]\n" + eattr + f"pub enum {name}{gen} {{\n" + ''.join(f"    {rng.choice(DOCS).strip()}\n    {v},\n" if rng.random() < 0.2 else f"    {v},\n" for v in variants) + "}\n"
+           + euse + f"impl{'<T: Mk>' if tp else ''} Mk for {name}{gen} {{\n    fn mk(s: u64) -> Self {{\n        match s % {len(variants)} {{\n" + '\n'.join(arms[:-1]) + ('\n' if len(arms) > 1 else '')
            + arms[-1].replace(f"            {len(arms) - 1} =>", "            _ =>") + "\n        }\n    }\n}\n"
            + f"pub fn test() -> Result<(), String> {{\n    for seed in 0..12u64 {{\n        let a: {inst} = Mk::mk(seed);\n        let b: {inst} = Mk::mk(seed / 2 + 1);\n        let d = a.diff(&b);\n"
            + "        if (a == b) != d.is_empty() { return Err(format!(\"enum diff empty={} but equal={}\", d.is_empty(), a == b)); }\n        if d.len() > 1 { return Err(format!(\"enum diff has {} entries\", d.len())); }\n"
